@@ -152,6 +152,9 @@ def run(ctx):
                     if has0 and has_elem:
                         hit = True
                         detail = "%s(%s, |s| %s)" % (qn.split("::")[-1], cov, show(r, 4))
+            if not hit and R.census_says_uniform(P, lits, "shares"):
+                hit = True
+                detail = "the variants in use over the whole list (mem::discriminant census) number at most one"
             good = good and hit
         if not (bool(oks) and good):
             # the same validation written as a loop: `for s in &shares[1..] { if !s.same_scheme(&shares[0]) { return Err } }`
